@@ -108,6 +108,12 @@ deriving Repr, DecidableEq
 /-- `MatrixLiteral.Depth(false)`: total factorisation depth = number of matrices -/
 def MatLit.maxDepth (d : MatLit) : Nat := d.levels.foldl (· + ·) 0
 
+/-- accepted by `GetCoeffsToSlots/SlotsToCoeffsFactorizationDepthAndLogScales`: the total
+    factorisation depth does not exceed `LogSlots`. -/
+def MatLit.valid (d : MatLit) : Prop := d.maxDepth ≤ d.logSlots
+
+instance (d : MatLit) : Decidable d.valid := by unfold MatLit.valid; infer_instance
+
 /-- sparse packing with imaginary repacking (`logSlots < logN-1 && imgRepack`) -/
 def MatLit.sparseRepack (d : MatLit) (logN : Nat) : Bool := decide (d.logSlots < logN - 1) && d.repack
 
@@ -242,6 +248,13 @@ def GalLit.c2s (g : GalLit) : MatLit :=
 
 def GalLit.s2c (g : GalLit) : MatLit :=
   { encode := false, logSlots := g.logSlots, levels := g.s2cLevels, repack := true, bitReversed := false, logBSGS := g.logBSGS }
+
+/-- literals accepted by `NewParametersFromLiteral`: `1 ≤ LogSlots ≤ LogN-1` (`GetLogSlots`) and both
+    factorisation depths at most `LogSlots`. -/
+def GalLit.valid (g : GalLit) : Prop :=
+  1 ≤ g.logSlots ∧ g.logSlots ≤ g.logN - 1 ∧ g.c2s.valid ∧ g.s2c.valid
+
+instance (g : GalLit) : Decidable g.valid := by unfold GalLit.valid; infer_instance
 
 /-- `for i := LogSlots; i < logN-1; i++ { 1<<i }` (SubSum / `Trace` rotations) -/
 def traceRots (logN logSlots : Nat) : List Nat :=
